@@ -532,8 +532,9 @@ func c19Dev(s *sim.Sim, p *sim.Params) {
 // takes simulated time (the file is read first, as a compiler does), so that the next change can
 // be detected while the previous one is still being compiled.
 type c19compiler struct {
-	s    *sim.Sim
-	slow bool
+	s     *sim.Sim
+	slow  bool
+	stall *int // how many compilations may still stall (nil: none)
 }
 
 func (c c19compiler) CompileFile(path string) ([]byte, error) {
@@ -542,7 +543,15 @@ func (c c19compiler) CompileFile(path string) ([]byte, error) {
 		return nil, err
 	}
 	if c.slow {
-		if d := []time.Duration{0, 50 * time.Millisecond, 300 * time.Millisecond, 900 * time.Millisecond}[c.s.Choose(sim.SFault, 4)]; d > 0 {
+		d := []time.Duration{0, 50 * time.Millisecond, 300 * time.Millisecond, 900 * time.Millisecond}[c.s.Choose(sim.SFault, 4)]
+		if c.stall != nil && *c.stall > 0 && c.s.Choose(sim.SFault, 4) == 0 {
+			// a compilation that stalls for most of a minute (a cold disk, a huge import): at most
+			// a few per run; the harness waits it out before it judges
+			*c.stall--
+			d = 45 * time.Second
+			c.s.Fault("compile-stalls")
+		}
+		if d > 0 {
 			c.s.Fault("slow-compile")
 			c.s.Sleep(d)
 		}
@@ -733,7 +742,13 @@ func c19Library(s *sim.Sim, p *sim.Params) {
 	if slow {
 		s.Probe("slow-compile-run")
 	}
-	rm := hotreload.NewReloadManager([]string{dir}, c19compiler{s: s, slow: slow}, sv, hotreload.WithOnReload(func(e hotreload.ReloadEvent) { events = append(events, e) }))
+	stalls := 0
+	if slow && s.Choose(sim.SWork, 3) == 0 {
+		stalls = 2
+		s.Probe("stalling-compile-run")
+	}
+	stallBudget := stalls
+	rm := hotreload.NewReloadManager([]string{dir}, c19compiler{s: s, slow: slow, stall: &stalls}, sv, hotreload.WithOnReload(func(e hotreload.ReloadEvent) { events = append(events, e) }))
 	ctx, cancel := sim.WithCancel(context.Background())
 	defer cancel()
 	if err := rm.Start(ctx); err != nil {
@@ -789,6 +804,13 @@ func c19Library(s *sim.Sim, p *sim.Params) {
 		if slow {
 			need += time.Duration(pending) * 900 * time.Millisecond
 		}
+		if stallBudget > 0 {
+			// stalled compilations still running or queued: wait them out
+			need += time.Duration(stallBudget) * 46 * time.Second
+			if s.Choose(sim.SWork, 3) == 0 {
+				wait = need + time.Second
+			}
+		}
 		logf("edit %d: %s v%d mtime=%q then wait %v (failReload=%v)", i, e.kind, e.version, e.mtime, wait, injected)
 		latestCompiles = false
 		if e.kind != "deleted" && e.kind != "unreadable" {
@@ -836,13 +858,13 @@ func c19Library(s *sim.Sim, p *sim.Params) {
 	}
 	// a later valid edit always takes effect (no injected failure pending, earlier reloads drained)
 	sv.failReload = false
-	c19wait(s, 2*time.Second+time.Duration(pending)*900*time.Millisecond)
+	c19wait(s, 2*time.Second+time.Duration(pending)*900*time.Millisecond+time.Duration(stallBudget)*46*time.Second)
 	if fi, err := os.Stat(file); err == nil && fi.IsDir() {
 		os.RemoveAll(file)
 	}
 	final := 2000 + len(edits)
 	put(c19valid(final), "")
-	c19wait(s, 4*time.Second)
+	c19wait(s, 4*time.Second+time.Duration(stalls)*46*time.Second)
 	want, _ := c19compile(c19valid(final))
 	if string(sv.active) != string(want) {
 		s.Fail("oracle", "valid-edit-ignored:library", fmt.Sprintf("4 s after a final valid edit the server still runs other code; reloads=%d events=%d\n%s", sv.reloads, len(events), strings.Join(sample, "\n")))
